@@ -196,4 +196,68 @@ def handleOptx (t : List String) : String :=
     | some e => s!"{m} | spec={showSpec p.tx p.pre e}"
     | none => m
 
+/-! ### component `ophist`: several transactions on one `Evm`
+
+* `begin ophist <spec> <sender balance> <sender nonce>` → `ok`
+* `oh slots <s1> <s5> <s6> <s7> <s3> <s8>` → `ok` (storage of the L1Block contract from now on)
+* `oh tx <deposit> <mint|n> <gas_limit> <gas_price> <value> <basefee> <enveloped|n> <remaining> <refunded>`
+  → like `optx` (call to a `STOP` target, frame class `ok`), the state is committed
+
+The model threads `context.evm.inner.l1_block_info` through the history (`transactCtx clearCtx`); the Spec
+column is the single-transaction function on the committed state and the CURRENT slots
+(`Props.C33.l1_cost_cache_fresh_per_tx`). -/
+structure HSt where
+  spec : Nat := 0
+  st : St := { bal := fun _ => 0, nonce := 0 }
+  slots : Slots := { s1 := 0, s5 := 0, s6 := 0, s7 := 0, s3 := 0, s8 := 0 }
+  ctx : Option L1Info := none
+  live : Bool := false
+
+def histBegin (t : List String) : HSt × String :=
+  match t with
+  | [sp, b, n] =>
+    (match spec? sp, word? b, dec? n with
+     | some spec, some b, some n =>
+       ({ spec := spec, st := { bal := fun a => if a = SENDER then b else 0, nonce := n }, live := true }, "ok")
+     | _, _, _ => ({}, "bad-op"))
+  | _ => ({}, "bad-op")
+
+def histTx (h : HSt) (t : List String) : Option (Tx × Frame) :=
+  match t with
+  | [dep, mint, gl, gp, value, basefee, env, rem, rf] => do
+    let dep ← parseBool? dep
+    let mint ← optWord? mint
+    if (match mint with | some m => decide (m ≥ U128) | none => false) then none
+    let gl ← dec? gl
+    let gp ← word? gp
+    let value ← word? value
+    let basefee ← word? basefee
+    let env ← (if env = "n" then some none else (bytes? env).map some)
+    let rem ← dec? rem
+    let rf ← i64? rf
+    let tx : Tx :=
+      { spec := h.spec, isDeposit := dep, isSystem := none, mint := mint, isCreate := false,
+        gasLimit := gl, gasPrice := gp, priorityFee := none, value := value, basefee := basefee, data := [],
+        enveloped := env, txNonce := none, caller := SENDER, coinbase := COINBASE,
+        target := CALLEE, maxDataFee := 0, dataFee := 0 }
+    some (tx, { cls := .ok, remaining := rem, refunded := rf })
+  | _ => none
+
+def histHandle (h : HSt) (t : List String) : HSt × String :=
+  if !h.live then (h, "bad-op") else
+  match t with
+  | "slots" :: r =>
+    (match slots? r with
+     | some s => ({ h with slots := s }, "ok")
+     | none => (h, "bad-op"))
+  | "tx" :: r =>
+    (match histTx h r with
+     | none => (h, "bad-op")
+     | some (tx, fr) =>
+       let r := transactCtx clearCtx tx h.slots h.st (fun x => execSimple tx x fr) fr h.ctx
+       let fresh := transact tx h.slots h.st fr
+       let out := s!"{showOutcome tx h.st r.1} | spec={showOutcome tx h.st fresh}"
+       ({ h with st := commit h.st r.1, ctx := r.2 }, out))
+  | _ => (h, "bad-op")
+
 end Driver.OpFees
